@@ -890,6 +890,8 @@ def bfs(prop, tier, depth, wall_cap=None):
         agg["foreign_cwd_cases"] = len(seqs)
     if prop in ("C07", "C19", "C02"):
         counts = [1, 15, 16, 17, 40] if tier == "quick" else [1, 2, 7, 15, 16, 17, 31, 32, 33, 40, 64, 65, 200, 600]
+        if prop == "C02":
+            counts += [99, 101, 120, 151, 333]   # list order matters here: more than two internal batches of 50
         tasks = [(n, prop) for n in counts]
         for r in common.pmap(many_task, tasks):
             if "engine_error" in r:
